@@ -1,6 +1,7 @@
 (* C09 - elementary operators compute exactly their documented mathematical action. *)
 From MrVerif Require Import Base.Prelude Base.StarRing Base.Sums Model.OpAlg Model.ZeroPad Model.ElemOps
-  Proofs.OpAlgProofs Proofs.ElemOpsProofs Proofs.AlongProofs Proofs.ElemOpsWf Proofs.ZeroPadProofs.
+  Proofs.OpAlgProofs Proofs.ElemOpsProofs Proofs.AlongProofs Proofs.ElemOpsWf Proofs.ZeroPadProofs
+  Model.Wavelet Proofs.WaveletProofs Proofs.WaveletWf Proofs.WaveletPRProofs.
 
 (* zero padding / cropping keeps the centre sample at index n//2, for all sizes of either parity *)
 Theorem C09_pad_centre : forall (R : StarRing) old new (x : nat -> R), (0 < old)%nat -> (0 < new)%nat ->
@@ -65,4 +66,27 @@ Print Assumptions C09_matrix.
 
 Example C09_example_5_to_8 : pad_vec (R:=ZRing) 5 8 (fun i => Z.of_nat i + 10)%Z 4%nat = 12%Z
   /\ map (pad_vec (R:=ZRing) 8 5 (fun i => Z.of_nat i)) (seq 0 5) = [2;3;4;5;6]%Z.
+Proof. vm_compute. split; reflexivity. Qed.
+
+(* ---- WaveletOp: "for orthogonal wavelets it is an isometry with W^H W = identity".  Filter-bank model of ptwt's zero-mode transform
+   (Model/Wavelet.v, tied to the code by family wavelet_filter_bank of C01 and translator T-W): if the filter pairs satisfy the
+   perfect-reconstruction condition - a finite condition on the filters alone: for both parities p and every shift d,
+   sum over k = p (mod 2), k' = k + d of (rec_lo k * dec_lo~ k' + rec_hi k * dec_hi~ k') = c [d = 0] - then waverec after wavedec is c
+   times the identity, for EVERY signal length (even or odd), one level.  Orthonormal filter banks have c = 1. ---- *)
+Theorem C09_wavelet_perfect_reconstruction : forall (R : StarRing) L n (flo fhi glo ghi : nat -> R) (c : R), (0 < L)%nat ->
+  pr_cond L flo fhi glo ghi c ->
+  forall (x : nat -> R) t, (t < n)%nat -> adj (dwt1 L n flo fhi glo ghi) (fwd (dwt1 L n flo fhi glo ghi) x) t = kmul c (x t).
+Proof. exact dwt1_perfect_reconstruction. Qed.
+Print Assumptions C09_wavelet_perfect_reconstruction.
+(* the condition is decidable for concrete filters: the boolean test implies it *)
+Theorem C09_wavelet_pr_test_sound : forall L flo fhi glo ghi c, (0 < L)%nat ->
+  pr_cond_b L flo fhi glo ghi c = true -> pr_cond (R:=ZRing) L flo fhi glo ghi c.
+Proof. exact pr_cond_b_sound. Qed.
+Print Assumptions C09_wavelet_pr_test_sound.
+(* non-vacuity: the Haar filters scaled to integers (dec_lo = (1,1), dec_hi = (-1,1), rec_lo = (1,1), rec_hi = (1,-1)) satisfy the condition
+   with c = 2 (the orthonormal Haar filters are these divided by sqrt 2: c = 1), and W^H W = 2 I is what the model computes on a signal of odd length *)
+Example C09_wavelet_haar :
+  pr_cond_b 2 (zvec (rev [1;1])) (zvec (rev [-1;1])) (zvec [1;1]) (zvec [1;-1]) 2 = true /\
+  let A := wavedec_Z 1 2 5 [1;1] [-1;1] [1;1] [1;-1] in
+  map (fun t => adj A (fwd A (fun i => Z.of_nat i * 3 - 4)%Z) t) (seq 0 5) = map (fun t => (2 * (Z.of_nat t * 3 - 4))%Z) (seq 0 5).
 Proof. vm_compute. split; reflexivity. Qed.
